@@ -8,6 +8,7 @@ reader in the source deviates from the published columns the deviation is *prove
 counter-example (`…_violated`) and the theorem is stated on the complement (`…_partial`).
 -/
 import Iodata.Lemmas.Fmt.Xyz
+import Iodata.Lemmas.Fmt.Sdf
 import Iodata.Gen.Layouts
 
 namespace Iodata.Props.C03
@@ -32,6 +33,47 @@ example : Xyz.SpecOK tables xyzL
     ⟨[' '], [' ', ' '], [], ['w','a','t','e','r',' ','1'], [' '],
      [⟨8, 1, ['\t'], [([' ', ' '], ⟨true, 12345678901⟩), (['\t'], ⟨false, 0⟩), ([' '], ⟨false, 99999999999999⟩)], []⟩,
       ⟨1, 3, [], [([' '], ⟨false, 5⟩), ([' '], ⟨true, 0⟩), ([' ', '\t'], ⟨false, 7⟩)], [' ']⟩]⟩ := by
+  decide +kernel
+
+/-! ## SDF (CTfile V2000 column table)
+
+Full statement: `∀ m, Sdf.ColDom T Sdf.specV2000 m → Sdf.load T sdfL (Sdf.dump T Sdf.specV2000 m) = .ok m'` for every
+model the published columns can hold.  FALSE for the code as it is (`sdf_spec_violated_*`): the reader
+cuts no columns at all (`sdf_reader_splits`).  Proved on the complement of the touching-field files. -/
+
+/-- SDF: the reader in the source slices no record by column; it uses `words[i]` of a blank split. -/
+theorem sdf_reader_splits : sdf_slices = [] ∧ sdf_words = Sdf.expectedWords := by decide +kernel
+
+/-- SDF: the columns the *writer* uses are the published ones (so C02 files are spec files), and the
+reader re-quantises to the published number of decimals. -/
+theorem sdf_writer_columns_match_spec :
+    Sdf.columns sdfL = Sdf.specColumns ∧ Sdf.columns Sdf.specV2000 = Sdf.specColumns ∧
+    sdfL.coordD = Sdf.specV2000.coordD := by decide +kernel
+
+/-- SDF, partial: a file rendered from the published column table whose fields do not touch is loaded
+as the model it was rendered from. -/
+theorem sdf_load_spec_partial (T : Tables) (L : Sdf.Layout) (hd : L.coordD = Sdf.specV2000.coordD)
+    (m : Sdf.Obj) (h : Sdf.Dom T Sdf.specV2000 m) :
+    Sdf.load T L (Sdf.dump T Sdf.specV2000 m) = .ok (Sdf.norm Sdf.specV2000 m) := by
+  rw [Sdf.load_congr T L Sdf.specV2000 hd]
+  exact Sdf.load_dump T Sdf.specV2000 (by decide +kernel) m h
+
+def sdfC110 : List Sdf.Atom := List.replicate 110 ⟨⟨false, 0⟩, ⟨false, 0⟩, ⟨false, 0⟩, 6⟩
+
+/-- SDF violated: the well-formed bond record `101110  1  0  0  0  0` (atoms 101 and 110, single bond)
+is loaded as a bond between atoms 101110 and 1 of type 0. -/
+theorem sdf_spec_violated_bond :
+    Sdf.ColDom tables Sdf.specV2000 ⟨['t'], sdfC110, [⟨100, 109, 1⟩]⟩ ∧
+    Sdf.dumpBond Sdf.specV2000 ⟨100, 109, 1⟩ = "101110  1  0  0  0  0\n".toList ∧
+    Sdf.load tables sdfL (Sdf.dump tables Sdf.specV2000 ⟨['t'], sdfC110, [⟨100, 109, 1⟩]⟩)
+      = .ok ⟨['t'], sdfC110, [⟨101109, 0, 0⟩]⟩ := by
+  decide +kernel
+
+/-- SDF violated: y = −1234.5678 directly after x is not read at all. -/
+theorem sdf_spec_violated_coord :
+    Sdf.ColDom tables Sdf.specV2000 ⟨['t'], [⟨⟨false, 5⟩, ⟨true, 12345678⟩, ⟨false, 0⟩, 1⟩], []⟩ ∧
+    failed (Sdf.load tables sdfL (Sdf.dump tables Sdf.specV2000 ⟨['t'], [⟨⟨false, 5⟩, ⟨true, 12345678⟩, ⟨false, 0⟩, 1⟩], []⟩))
+      = true := by
   decide +kernel
 
 end Iodata.Props.C03
